@@ -70,6 +70,10 @@ CC = "pybads.function_logger.constraints_check.contraints_check"
 VT = "pybads.variable_transformer.variables_transformer.VariableTransformer"
 
 MUT["C10"] = [
+    dict(id="c10-zero-sd-accepted", what="a reported SD of exactly zero is accepted (as in a second-round seeded change)", path=P_FL, functions=[FL + ".__call__"],
+         old="            not np.isfinite(fsd) or not np.isreal(fsd) or fsd <= 0.0\n        ):\n            error_message = \"\"\"FunctionLogger:InvalidNoiseValue\n                The returned estimated SD (second function output)\n                must be a finite, positive real-valued scalar (returned SD:{}\"\"\"\n            raise ValueError(error_message.format(str(fsd)))\n\n        # record timer stats",
+         new="            not np.isfinite(fsd) or not np.isreal(fsd) or fsd < 0.0\n        ):\n            error_message = \"\"\"FunctionLogger:InvalidNoiseValue\n                The returned estimated SD (second function output)\n                must be a finite, positive real-valued scalar (returned SD:{}\"\"\"\n            raise ValueError(error_message.format(str(fsd)))\n\n        # record timer stats",
+         expect="accepted_sd_is_positive"),
     dict(id="c10-swallow", what="logger swallows the target's exception and returns NaN", path=P_FL, functions=[FL + ".__call__"],
          old="                    + str(x_orig),\n                )\n            raise", new="                    + str(x_orig),\n                )\n            return np.nan, None, None", expect="target_did_not_raise"),
     dict(id="c10-count-early", what="func_count incremented before the value is validated", path=P_FL, functions=[FL + ".__call__"],
@@ -116,6 +120,8 @@ MUT["C17"] = [
 ]
 
 MUT["C01"] = [
+    dict(id="c01-ub-search-outside", what="upper search bound stepped outwards (as in a second-round seeded change)", path=P_BADS, functions=[B + "._update_search_bounds_#C01"],
+         old="            ub_search[ub_search > ub] - self.optim_state[\"search_mesh_size\"]", new="            ub_search[ub_search > ub] + self.optim_state[\"search_mesh_size\"]", expect="search_box_inside_hard_box"),
     dict(id="c01-orig-ub-plausible", what="plausible upper bound recorded as the hard bound the clamp uses", path=P_VT, functions=[VT + ".__init__"],
          old="        self.orig_ub = ub.copy()", new="        self.orig_ub = pub.copy()", expect="original_hard_bounds_recorded"),
     dict(id="c01-orig-lb-swapped", what="upper bound recorded as the lower hard bound", path=P_VT, functions=[VT + ".__init__"],
@@ -490,7 +496,7 @@ PROPS = {
     "C01": dict(
         level="proof",
         native=[panel('C01', 6, 36)], replay=replay('C01'),
-        functions=[VT + ".__init__", VT + ".inverse_transf", VT + ".__call__", FL + ".__call__", CC, B + ".optimize"],
+        functions=[VT + ".__init__", VT + ".inverse_transf", VT + ".__call__", FL + ".__call__", CC, B + ".optimize", B + "._update_search_bounds_#C01"],
         scans=[scan_c01],
         mutants=MUT["C01"],
         explanation="Clamp postconditions of both transform directions for every finite input; the single target call site receives inverse_transf(x)[0] (in the hard box for every x); "
